@@ -22,22 +22,22 @@ from .model import TreeModel
 from .snapshot import ustr
 
 MUTATING = {"mk_group", "mk_object", "add_data", "add_comment", "add_file", "set_values", "rename", "set_flag",
-            "set_meta", "move", "copy", "rm_ws", "rm_parent", "pg_add", "pg_rm", "pg_del", "mk_dup"}
+            "set_meta", "move", "copy", "rm_ws", "rm_parent", "pg_add", "pg_rm", "pg_del", "mk_dup", "pg_new", "move_data", "copy_extent"}
 SCHEDULE = {"gc", "drop", "close_reopen", "reopen_same", "save_as", "list", "lookup", "observe", "tidy"}
 
 BASE_WEIGHTS = {
     "mk_group": 6, "mk_object": 10, "add_data": 12, "add_comment": 2, "add_file": 1, "set_values": 5,
     "rename": 4, "set_flag": 3, "set_meta": 3, "move": 5, "copy": 6, "rm_ws": 5, "rm_parent": 4,
-    "pg_add": 4, "pg_rm": 2, "pg_del": 1, "mk_dup": 0,
+    "pg_add": 4, "pg_rm": 2, "pg_del": 1, "pg_new": 2, "mk_dup": 0, "move_data": 3, "copy_extent": 2,
     "gc": 5, "drop": 3, "close_reopen": 4, "reopen_same": 2, "save_as": 1, "list": 3, "lookup": 3, "observe": 2,
 }
 PROFILES = {
     "C01": {},
-    "C02": {"rm_parent": 6, "move": 7, "copy": 8, "close_reopen": 6},
-    "C05": {"rm_ws": 12, "rm_parent": 9, "pg_add": 8, "pg_rm": 4, "lookup": 6, "copy": 4, "set_flag": 5},
+    "C02": {"rm_parent": 6, "move": 7, "copy": 8, "close_reopen": 6, "move_data": 6, "copy_extent": 5, "pg_add": 6},
+    "C05": {"rm_ws": 12, "rm_parent": 9, "pg_add": 8, "pg_rm": 4, "pg_new": 5, "lookup": 6, "copy": 4, "set_flag": 5},
     "C06": {"mk_dup": 8, "copy": 10, "rm_ws": 6, "rm_parent": 5, "lookup": 4},
     "C09": {"observe": 4, "list": 4},
-    "C12": {"copy": 16, "set_values": 7, "rename": 6, "set_meta": 6, "pg_add": 6},
+    "C12": {"copy": 16, "set_values": 7, "rename": 6, "set_meta": 6, "pg_add": 6, "copy_extent": 6, "pg_new": 3},
 }
 
 
@@ -973,11 +973,154 @@ class World:
         model.removed.add(pg_uid)
         return "ok"
 
+    def gen_pg_new(self, rng, h):
+        t = self.target(rng, h, "object", lambda r: not r.get("concat") and r["cls"] != "Drillhole")
+        if t is None:
+            return None
+        return {"t": t, "pg": rng.choice(["pgA", "pgB", "pgC", "pgE"]), "assoc": rng.choice(["VERTEX", "CELL"])}
+
+    def do_pg_new(self, op):
+        """An empty property group: created but never populated (legal; it survives re-open)."""
+        h = op["h"]
+        model = self.h[h].model
+        uid = self.resolve(h, op["t"], lambda r: not r.get("concat") and r["cls"] != "Drillhole")
+        if uid is None:
+            return "skipped"
+        orec = model.recs[uid]
+        if any(pg["name"] == op["pg"] for pg in orec["pgs"].values()):
+            return "skipped"
+        self.touch_pg(h, uid)
+        obj = self.ent(h, uid)
+        pg, outcome = self.call(lambda: obj.find_or_create_property_group(name=op["pg"], association=op["assoc"]), what="pg_new")
+        del obj
+        if outcome != "ok":
+            return outcome
+        pg_uid = ustr(pg.uid)
+        if pg_uid in model.all_ids():
+            raise Violation("C06", "uid_reused", f"new property group reuses identifier {pg_uid}", {"what": "pg"})
+        orec["pgs"][pg_uid] = {"name": op["pg"], "assoc": op["assoc"], "type": pg.property_group_type, "props": []}
+        model.pg_creator[pg_uid] = (op["id"], 0)
+        del pg
+        self.sim.probe("pg_empty_created")
+        return "ok"
+
+    def gen_move_data(self, rng, h):
+        t = self.target(rng, h, "data", lambda r: not r.get("concat") and r["cls"] not in ("CommentsData",))
+        d = self.target(rng, h, "object", lambda r: not r.get("concat") and r["cls"] != "Drillhole")
+        if t is None or d is None:
+            return None
+        return {"t": t, "d": d, "pick": rng.randrange(1000)}
+
+    def do_move_data(self, op):
+        """Re-parent a data set to another object whose element count matches its association."""
+        h = op["h"]
+        model = self.h[h].model
+        uid = self.resolve(h, op["t"], lambda r: not r.get("concat") and r["cls"] not in ("CommentsData",))
+        if uid is None:
+            return "skipped"
+        rec = model.recs[uid]
+        src = model.recs[rec["parent"]]
+        if src["kind"] != "object":
+            return "skipped"
+        assoc = rec["attrs"].get("Association", "OBJECT")
+        n_src = self._n_for(src, assoc)
+        fits = [u for u in model.alive("object") if u != rec["parent"] and not model.recs[u].get("concat") and model.recs[u]["cls"] != "Drillhole"
+                and (assoc == "OBJECT" or self._n_for(model.recs[u], assoc) == n_src)
+                and rec["name"] not in [model.recs[c]["name"] for c in model.recs[u]["children"]]]
+        if not fits:
+            return "skipped"
+        dest = fits[op["pick"] % len(fits)]
+        self.touch(h, uid)
+        ent = self.ent(h, uid)
+        parent = self.ent(h, dest)
+
+        def assign():
+            ent.parent = parent
+
+        _, outcome = self.call(assign, what="move_data")
+        if outcome != "ok":
+            return outcome
+        if ustr(ent.parent.uid) != dest:
+            raise Violation("C01", "live_mismatch", "parent not changed by move", {"field": "parent", "where": "move_data"})
+        del ent, parent
+        in_pg = any(uid in pg["props"] for pg in src["pgs"].values())
+        model.move(uid, dest)
+        self.sim.probe("move_data_in_pg" if in_pg else "move_data")
+        return "ok"
+
+    def gen_copy_extent(self, rng, h):
+        t = self.target(rng, h, "holder", lambda r: not r.get("concat") and not r.get("concat_group"))
+        if t is None:
+            return None
+        dh = h
+        if "B" in self.h and rng.random() < 0.5:
+            dh = "B" if h == "A" else "A"
+        return {"t": t, "dh": dh, "d": self.target(rng, dh, "container"), "sel": "none", "children": True}
+
+    def do_copy_extent(self, op):
+        """copy_from_extent with a box that misses everything ('none': nothing may change) or
+        contains everything ('all': behaves like copy for point/cell objects)."""
+        h, dh = op["h"], op["dh"]
+        if dh not in self.h:
+            dh = h
+        model, dmodel = self.h[h].model, self.h[dh].model
+        uid = self.resolve(h, op["t"], lambda r: not r.get("concat") and not r.get("concat_group"))
+        dest = self.resolve(dh, op["d"])
+        if uid is None or dest is None:
+            return "skipped"
+        rec = model.recs[uid]
+        if dmodel.recs[dest].get("concat_group") or (dh == h and dest in model.subtree(uid)):
+            return "skipped"
+        if op["sel"] == "all" or not op["children"]:
+            return "skipped"   # only the 'selects nothing' case is modelled (exact selection is C13: not applicable)
+        if not self._deletable(model, uid):
+            return "skipped"
+        if any(model.recs[u]["cls"] in ("Drillhole", "ConcatenatedDrillhole") or model.recs[u].get("concat_group") for u in model.subtree(uid)):
+            return "skipped"
+        box = np.array([[1e6, 1e6, 1e6], [2e6, 2e6, 2e6]]) if op["sel"] == "none" else np.array([[-1e6, -1e6, -1e6], [1e6, 1e6, 1e6]])
+        ent = self.ent(h, uid)
+        parent = self.ent(dh, dest)
+        in_use = dmodel.all_ids() | {dmodel.root}
+        before_dest = sorted(dmodel.recs[dest]["children"])
+        new, outcome = self.call(lambda: ent.copy_from_extent(box, parent=parent, copy_children=op["children"]), what=f"copy_extent {rec['cls']}")
+        del ent
+        if outcome != "ok":
+            del parent
+            return outcome
+        if op["sel"] == "none":
+            kids = sorted(ustr(c.uid) for c in snapshot.children_of(parent))
+            del parent
+            if new is not None or kids != before_dest:
+                raise Violation("C12", "extent_none_left_copy", f"copy_from_extent selecting nothing left a copy of {rec['cls']} behind",
+                                {"cls": rec["cls"], "ws": "same" if dh == h else "other"})
+            self.sim.probe("copy_extent_none")
+            return "ok"
+        del parent
+        if new is None:
+            return "raised:None"
+        new_recs = snapshot.subtree(self.h[dh].ws, new)
+        root_new = ustr(new.uid)
+        info = {"h": h, "src": uid, "dh": dh, "dst": root_new, "children": op["children"], "new": new_recs, "in_use": in_use,
+                "src_ids": set(model.subtree(uid)) | {p for u in model.subtree(uid) for p in model.recs[u].get("pgs", {})}}
+        order = sorted(new_recs, key=lambda u: (0 if u == root_new else 1, new_recs[u]["kind"], new_recs[u]["name"], u))
+        for i, u in enumerate(order):
+            if u in dmodel.recs:
+                raise Violation("C06", "uid_reused", f"copy reuses identifier {u} of a live entity", {"what": "copy_extent", "kind": new_recs[u]["kind"]})
+            dmodel.add(new_recs[u], op["id"], i)
+        for u in order:
+            for pg_uid in new_recs[u].get("pgs", {}):
+                dmodel.pg_creator[pg_uid] = (op["id"], 0)
+        self.note_created(op, dh, order)
+        self.copies.append(info)
+        self.keep_or_drop({**op}, dh, new)
+        self.sim.probe("copy_extent_all")
+        return "ok"
+
     # ---- identifier reuse (C06) --------------------------------------------------------------
     def gen_mk_dup(self, rng, h):
         model = self.h[h].model
         choice = rng.choice(["live_same", "live_other", "removed", "pg", "fresh", "root"])
-        return {"mode": choice, "pick": rng.randrange(1000), "as": rng.choice(["group", "object", "data"]),
+        return {"mode": choice, "pick": rng.randrange(1000), "as": rng.choice(["group", "object", "data", "pg"]),
                 "t": self.target(rng, h, "container"), "o": self.target(rng, h, "object", lambda r: not r.get("concat"))}
 
     def do_mk_dup(self, op):
@@ -988,7 +1131,7 @@ class World:
         mode, kind = op["mode"], op["as"]
         pool: list[str]
         if mode == "live_same":
-            pool = [u for u in model.alive(kind)]
+            pool = [u for u in model.alive(kind)] if kind != "pg" else sorted(model.pgs())
         elif mode == "live_other":
             pool = [u for u in model.alive("entity") if model.recs[u]["kind"] != kind]
         elif mode == "removed":
@@ -1008,7 +1151,7 @@ class World:
         parent_uid = self.resolve(h, op["t"])
         obj_uid = self.resolve(h, op["o"], lambda r: not r.get("concat"))
         ws = self.h[h].ws
-        if kind == "data":
+        if kind in ("data", "pg"):
             if obj_uid is None:
                 return "skipped"
             holder_uid = obj_uid
@@ -1022,6 +1165,9 @@ class World:
             fn = lambda: groups.ContainerGroup.create(ws, name="dup", parent=holder, uid=uid_obj(the_uid))
         elif kind == "object":
             fn = lambda: objects.Points.create(ws, name="dup", parent=holder, vertices=np.zeros((2, 3)), uid=uid_obj(the_uid))
+        elif kind == "pg":
+            pg_before = sorted(model.recs[holder_uid]["pgs"])
+            fn = lambda: holder.create_property_group(name=f"dup{op['id']}", uid=uid_obj(the_uid))
         else:
             fn = lambda: holder.add_data({f"dup{op['id']}": {"values": np.array([1.0]), "association": "OBJECT", "uid": uid_obj(the_uid)}})
         in_use = the_uid in model.all_ids()
@@ -1037,15 +1183,24 @@ class World:
                 raise Violation("C06", "dup_uid_accepted", f"creating a {kind} with identifier {the_uid} already used by a "
                                 f"{'property group' if mode == 'pg' else model.recs.get(the_uid, {}).get('kind', '?')} was accepted",
                                 {"mode": mode, "as": kind})
-            if after["children"] != before["children"]:
-                raise Violation("C06", "refusal_side_effect", f"refused creation left a child in parent.children "
-                                f"({set(after['children']) ^ set(before['children'])})", {"mode": mode, "as": kind})
+            if after["children"] != before["children"] or sorted(after["pgs"]) != sorted(before["pgs"]) or \
+                    any(len(set(p["props"])) != len(p["props"]) for p in after["pgs"].values()):
+                raise Violation("C06", "refusal_side_effect", f"refused creation left a child in parent.children / property_groups "
+                                f"({set(after['children']) ^ set(before['children'])} {set(after['pgs']) ^ set(before['pgs'])})", {"mode": mode, "as": kind})
             return outcome
         del holder
         if outcome != "ok" and not outcome.startswith("accepted"):
             return outcome
         if ent is None:
             return "raised:None"
+        if kind == "pg":
+            if ustr(ent.uid) != the_uid:
+                raise Violation("C06", "uid_not_honoured", f"requested identifier {the_uid}, got {ustr(ent.uid)}", {"mode": mode, "as": kind})
+            model.recs[holder_uid]["pgs"][the_uid] = {"name": ent.name, "assoc": ent.association.name.upper(), "type": ent.property_group_type, "props": []}
+            model.pg_creator[the_uid] = (op["id"], 0)
+            model.removed.discard(the_uid)
+            del ent
+            return "ok"
         rec = snapshot.record(ent)
         if rec["uid"] != the_uid:
             raise Violation("C06", "uid_not_honoured", f"requested identifier {the_uid}, got {rec['uid']}", {"mode": mode, "as": kind})
